@@ -356,6 +356,99 @@ def r9_subscripts_are_numeric(ctx, rule="C12.R9"):
     ctx.require(rule, 2)
 
 
+def r10_array_element_type_field(ctx, rule="C12.R10"):
+    """`Expression::ArrayElement(name, indices, type)` with an empty index list is the whole array
+    `A()`; its third field is the type of the *elements*.  Code that reads the type field without
+    looking at the index list takes a whole array for one of its elements: `LINE INPUT a$()` passed the
+    string check and the VM then found an array where a string was promised.  In the checker and the
+    generator every function that reads the type field of an ArrayElement also reads its index list
+    (or asks expression_type(), which does)."""
+    prog = ctx.prog
+    n = 0
+    for f in sorted(prog.fns.values(), key=lambda f: f.id):
+        if f.crate not in ("rusty_linter", "rusty_basic") or f.kind == "const":
+            continue
+        if f.impl and (f.impl.get("trait_ref") or "").split(" as ")[-1].startswith(("std::clone", "std::fmt", "std::cmp")):
+            continue
+        fields = set()
+        for blk in f.body.blocks:
+            if blk.get("c"):
+                continue
+            places = []
+            for st in blk["s"]:
+                if st["k"] != "assign":
+                    continue
+                r = st["r"]
+                if "p" in r:
+                    places.append(r["p"])
+                for kk in ("o", "a", "b"):
+                    if isinstance(r.get(kk), dict) and mir.op_place(r[kk]) is not None:
+                        places.append(mir.op_place(r[kk]))
+            t = blk["t"]
+            if t["k"] == "call":
+                places += [mir.op_place(a) for a in t["args"] if mir.op_place(a) is not None]
+            for pl in places:
+                for e in pl[1]:
+                    if isinstance(e, dict) and e.get("v") == "ArrayElement" and (e.get("a") or "").endswith("::Expression"):
+                        fields.add(e.get("f"))
+        if 2 not in fields:
+            continue
+        n += 1
+        name = f.path.split("::", 1)[1]
+        ctx.decide(1 in fields, rule, "%s:%s" % (rule, name), f.loc,
+                   "reads the index list together with the type",
+                   "%s reads the type field of Expression::ArrayElement without its index list: for the whole "
+                   "array `A()` (no indices) that field is the element type, so an array is accepted where a "
+                   "single value of that type is required" % name)
+    ctx.analysed_units(rule, readers_of_the_type_field=n)
+    ctx.require(rule, 4)
+
+
+def r11_no_conversion_between_arrays(ctx, T, rule="C12.R11"):
+    """An array is passed as a whole - there is no instruction that converts its elements (the
+    casting emitter has no arm for arrays).  Whatever decides `an argument of this type may be
+    passed by value to that parameter` must therefore accept an array only for an array parameter
+    with the very same element type: evaluated for every pair of element types."""
+    prog = ctx.prog
+    rpt = [a for a in prog.adts.values() if a["path"].endswith("::ResolvedParamType")]
+    if len(rpt) != 1:
+        raise CheckError("anchor ResolvedParamType")
+    RPT = rpt[0]["id"]
+    fs = [f for f in prog.fns.values() if f.name == "can_cast_to" and f.impl and f.kind != "closure"
+          and f.impl["self_ty"].endswith("ExpressionType") and "ResolvedParamType" in (f.impl.get("trait_ref") or "")
+          and "Box" not in f.impl["self_ty"]]
+    if len(fs) != 1:
+        raise CheckError("anchor <ExpressionType as CanCastTo<ResolvedParamType>>::can_cast_to: %d" % len(fs))
+    fn = fs[0]
+    by_val = [f for f in prog.fns.values() if f.name == "lint_by_val_arg" and "user_defined_function_linter" in f.id]
+    if by_val and fn.id not in prog.reachable_from(by_val):
+        raise CheckError("%s: lint_by_val_arg does not reach %s" % (rule, fn.path))
+    arr_e = [i for i, fl in enumerate(T.eng.variant_named(ET, "Array")["fields"])]
+    arr_p = [i for i, fl in enumerate(T.eng.variant_named(RPT, "Array")["fields"])]
+    elems = [("BuiltIn/" + q, T.eng.make(ET, "BuiltIn", {0: tf.Tag(ot.TQ, q)})) for q in ALLQ] + \
+            [("FixedLengthString", T.eng.make(ET, "FixedLengthString", {}))]
+    params = [("BuiltIn/" + q, T.eng.make(RPT, "BuiltIn", {0: tf.Tag(ot.TQ, q)})) for q in ALLQ]
+    n = 0
+    for en, ev in elems:
+        for pn, pv_ in params:
+            a = T.eng.make(ET, "Array", {arr_e[0]: ev})
+            pt = T.eng.make(RPT, "Array", {arr_p[0]: pv_})
+            rs = sorted({tf.shape(x) for x in T.eng.summary(fn, (tf.Ref(a), tf.Ref(pt)))})
+            key = "%s:array(%s)->array(%s)" % (rule, en, pn)
+            n += 1
+            if rs not in (["0"], ["1"]):
+                ctx.unknown(rule, key, fn.loc, "abstract result %s" % rs)
+                continue
+            want = "1" if en == pn else "0"
+            ctx.decide(rs == [want], rule, key, fn.loc, "accepted=%s" % want,
+                       "an array of %s passed by value (in parentheses) to an array parameter of %s is %s: %s"
+                       % (en, pn, "accepted" if rs == ["1"] else "refused",
+                          "the generator has no conversion for arrays and the program ends in an internal failure "
+                          "(`Cannot cast Array(..) into Array(..)`)" if rs == ["1"] else "a correct call is refused"))
+    ctx.analysed_units(rule, cells=n)
+    ctx.require(rule, 30)
+
+
 def run(ctx):
     common.install(ctx)
     T = ot.OpTables(ctx.prog)
@@ -369,3 +462,5 @@ def run(ctx):
     r7_rewrites_preserve_type(ctx)
     c08.r10_child_helper_on_own_node(ctx, "C12.R8")
     r9_subscripts_are_numeric(ctx)
+    r10_array_element_type_field(ctx)
+    r11_no_conversion_between_arrays(ctx, T)
